@@ -1278,13 +1278,9 @@ func (w *world) tail() string {
 	}
 	synctest.Wait()
 	w.quiescent("tail-start")
-	longWait := false
 	for _, h := range hs {
 		if w.violated() {
 			return ""
-		}
-		if h.timed || h.never {
-			longWait = true
 		}
 		w.mu.Lock()
 		skip := h.cancel == nil || w.endedLocked(h)
@@ -1296,10 +1292,25 @@ func (w *world) tail() string {
 		synctest.Wait()
 		w.quiescent("tail-cancel")
 	}
+	// Let an hour pass where that decides something: the pool is still live and a never-ending
+	// context may be tracked (it must then survive any amount of time), or a deadline context is
+	// still pending. (Every bubble whose clock moves costs the race detector ~30KB that are never
+	// returned, so time is not advanced where nothing could be learnt from it.)
+	w.mu.Lock()
+	longWait := false
+	if !w.doneSeen {
+		for _, h := range hs {
+			if (h.never || h.timed) && (protected(h) || h.cls == clsAmbiguous) && !w.endedLocked(h) {
+				longWait = true
+			}
+		}
+	}
+	w.mu.Unlock()
 	if longWait {
 		w.advance(time.Hour)
 		synctest.Wait()
 		w.quiescent("tail-advance")
+		count("tail.hour_passed_with_pool_live", 1)
 	}
 	if w.violated() {
 		return ""
@@ -1444,6 +1455,8 @@ const (
 
 type space struct {
 	seqN, seqL, seqG          int // lock-step: initial contexts <= N, sequences <= L, group prefix length G
+	seqN2, seqL2              int // additionally: exactly N2 initial contexts, sequences <= L2 (0 = none)
+	extN2, extL2              int // additionally for ext: initial contexts <= N2, sequences <= L2 (beyond extL)
 	hookN, hookL, hookG       int
 	hookK                     int
 	extN, extL, extG          int // extended alphabet, lock-step
@@ -1453,9 +1466,9 @@ type space struct {
 
 func theSpace() space {
 	if mon.Thorough() {
-		return space{seqN: 4, seqL: 7, seqG: 3, hookN: 3, hookL: 5, hookG: 2, hookK: 3,
-			extN: 2, extL: 4, extG: 2, exthookN: 1, exthookL: 4,
-			nBurst: 60000, nRandHook: 120000, nRacin: 150000}
+		return space{seqN: 3, seqL: 7, seqG: 3, seqN2: 4, seqL2: 6, hookN: 3, hookL: 5, hookG: 2, hookK: 3,
+			extN: 2, extL: 3, extG: 1, extN2: 1, extL2: 4, exthookN: 1, exthookL: 3,
+			nBurst: 20000, nRandHook: 40000, nRacin: 60000}
 	}
 	return space{seqN: 3, seqL: 5, seqG: 2, hookN: 2, hookL: 4, hookG: 1, hookK: 2,
 		extN: 2, extL: 3, extG: 1, exthookN: 1, exthookL: 3,
@@ -1473,9 +1486,22 @@ func groups(mode string, cfgs []string, ext bool, L, G int, hook string, k, m in
 	return ps
 }
 
+func exactly(cfgs []string, n int) []string {
+	var out []string
+	for _, c := range cfgs {
+		if len(c) == n {
+			out = append(out, c)
+		}
+	}
+	return out
+}
+
 func plans() []plan {
 	sp := theSpace()
 	ps := groups("lockstep", allCfgs(sp.seqN, classicKinds), false, sp.seqL, sp.seqG, "", 0, 0)
+	if sp.seqN2 > 0 {
+		ps = append(ps, groups("lockstep", exactly(allCfgs(sp.seqN2, classicKinds), sp.seqN2), false, sp.seqL2, sp.seqG, "", 0, 0)...)
+	}
 	for _, h := range hookPoints {
 		for k := 1; k <= sp.hookK; k++ {
 			if k > 1 && h != "pool.waited" {
@@ -1487,6 +1513,14 @@ func plans() []plan {
 		}
 	}
 	ps = append(ps, groups("ext", allCfgs(sp.extN, extKinds), true, sp.extL, sp.extG, "", 0, 0)...)
+	if sp.extL2 > sp.extL {
+		// the longer sequences only (those of length <= extL were enumerated just above)
+		for _, pl := range groups("ext", allCfgs(sp.extN2, extKinds), true, sp.extL2, sp.extL+1, "", 0, 0) {
+			if !pl.short {
+				ps = append(ps, pl)
+			}
+		}
+	}
 	for _, h := range hookPoints {
 		for m := 1; m <= 2; m++ {
 			ps = append(ps, groups("exthook", allCfgs(sp.exthookN, extKinds), true, sp.exthookL, 1, h, 1, m)...)
@@ -1641,13 +1675,20 @@ func TestCheck(t *testing.T) {
 	defer rec.Close()
 	defer flushTally()
 	sp := theSpace()
+	also, alsoExt := "", ""
+	if sp.seqN2 > 0 {
+		also = fmt.Sprintf(" (and every pool of exactly %d initial contexts x every sequence of 0..%d operations)", sp.seqN2, sp.seqL2)
+	}
+	if sp.extL2 > sp.extL {
+		alsoExt = fmt.Sprintf(" (and 0..%d initial contexts x 0..%d operations)", sp.extN2, sp.extL2)
+	}
 	rec.Note("rule", fmt.Sprintf("a case is one history run against the real context.Pool in its own synctest bubble (race detector on), ended by the same tail (cancel every context the harness can end, let 1h of virtual time pass if deadline or never-ending contexts took part -> the pool must be done unless a never-ending or pool-derived member may be tracked, and must NOT be done if a protected never-ending member exists; Size; offer a context; Size; Cancel -> pool done, Size 0; offer again -> Size 0; no goroutine of the pool may be left in the bubble). "+
-		"(lockstep, EXHAUSTIVE) every pool of 0..%d initial contexts, each live or already cancelled, x every sequence of 0..%d operations over {cancel(h) for each context h the harness created and has not cancelled yet, Add(live ctx), Add(ended ctx), Cancel, Size}, the bubble quiescent between operations; "+
+		"(lockstep, EXHAUSTIVE) every pool of 0..%d initial contexts, each live or already cancelled, x every sequence of 0..%d operations%s over {cancel(h) for each context h the harness created and has not cancelled yet, Add(live ctx), Add(ended ctx), Cancel, Size}, the bubble quiescent between operations; "+
 		"(hook, exhaustive for its parameters) pools of 0..%d initial contexts x sequences of 0..%d operations x the watcher parked at the k-th hit of pool.waited (k=1..%d) or at pool.exit / pool.unlocked (reached once) with the next 1 or 2 operations of the sequence issued exactly there; "+
-		"(ext, enumerated) pools of 0..%d initial contexts of kind {live, ended, Background, custom nil-Done type, deadline} x every sequence of 0..%d operations over the classic alphabet plus {Add never-ending ctx (Background / WithValue / WithoutCancel(cancelled parent) / custom, flavour = handle number mod 4), Add deadline ctx, Add child of the lowest/highest cancellable member, Add again the context of the lowest/highest live member, Add the pool itself, Add a child of the pool, let 15ms of virtual time pass}; (exthook) the same alphabet, 0..%d initial contexts x 0..%d operations x parked at the first hit of each hook point with 1 or 2 operations placed; "+
+		"(ext, enumerated) pools of 0..%d initial contexts of kind {live, ended, Background, custom nil-Done type, deadline} x every sequence of 0..%d operations%s over the classic alphabet plus {Add never-ending ctx (Background / WithValue / WithoutCancel(cancelled parent) / custom, flavour = handle number mod 4), Add deadline ctx, Add child of the lowest/highest cancellable member, Add again the context of the lowest/highest live member, Add the pool itself, Add a child of the pool, let 15ms of virtual time pass}; (exthook) the same alphabet, 0..%d initial contexts x 0..%d operations x parked at the first hit of each hook point with 1 or 2 operations placed; "+
 		"(burst) %d seeded sequences of 4..14 operations issued back to back with no quiescence; (randhook) %d seeded lock-step sequences of 6..16 operations on up to 4 initial contexts with a seeded park (hit 1..5, 1..3 placed operations); (racing) %d seeded histories of 2..6 phases whose 1..5 operations are released together from separate goroutines, biased to Add racing the cancellation of the last live member; the seeded modes use the extended alphabet and all initial kinds (also the same context passed twice). "+
 		"Tuples are enumerated without repetition, so distinct = evaluated for the enumerated modes; seeded cases are distinct by their operation list. Non-trivial = the pool was observed live at a quiescent point (it had a live member) or operations were placed at a hook; a hook case whose hook is not reached before the tail is counted trivial.",
-		sp.seqN, sp.seqL, sp.hookN, sp.hookL, sp.hookK, sp.extN, sp.extL, sp.exthookN, sp.exthookL, sp.nBurst, sp.nRandHook, sp.nRacin))
+		sp.seqN, sp.seqL, also, sp.hookN, sp.hookL, sp.hookK, sp.extN, sp.extL, alsoExt, sp.exthookN, sp.exthookL, sp.nBurst, sp.nRandHook, sp.nRacin))
 	rec.Note("oracle", "never-early: whoever first sees Done() (observer goroutine, hook handler, client after each call) demands that every protected member has ended by the harness's log (cancelled by the harness, deadline passed in virtual time, an ancestor ended) or Cancel was called; a never-ending member (Done()==nil) never ends, so the pool must stay live until Cancel, also across 1h of virtual time. protected = live at creation, or Add called while Done() was open and returned while a protected member was live. eventually: at every quiescent point (synctest.Wait returned, nothing parked) Done() must be closed if Cancel returned or every context accepted or possibly accepted has ended. Size must lie in [certainly accepted, certainly+possibly accepted], 0 after Cancel, and a solo Size fixes the count; never-ending, deadline and child members count for certain, a context offered a second time and contexts derived from the pool itself only raise the upper bound. An Add that overlaps/follows the end of the last protected member may be ignored, counted, tracked or not: all accepted and counted (unprotected.*, size.uncertain_*). The pool itself or a child of it as a member: it ends exactly when the pool does, so it can never make Done() early and the statement demands neither that the pool stays live nor that it ends; it does not protect later Adds (conservative); observed and counted (poolderived.*).")
 	rec.Note("require", []string{
 		"park.pool.waited", "park.pool.exit", "park.pool.unlocked",
@@ -1655,16 +1696,21 @@ func TestCheck(t *testing.T) {
 		"exit.calls_blocked_on_rwmutex", "done.observed", "done.after_last_member", "done.after_cancel",
 		"add.protected", "add.unprotected", "add.offered_after_done", "add.offered_after_cancel",
 		"add.protected.kind_B", "add.protected.kind_V", "add.protected.kind_W", "add.protected.kind_U", "add.protected.kind_D", "add.protected.kind_C", "add.protected.kind_=",
-		"ctxkind.P", "ctxkind.Q", "deadline.expired_in_virtual_time", "never.pool_live_on_never_ending_member_only", "tail.pool_live_until_cancel", "tail.pool_done_before_cancel",
+		"ctxkind.P", "ctxkind.Q", "deadline.expired_in_virtual_time", "never.pool_live_on_never_ending_member_only", "tail.pool_live_until_cancel", "tail.pool_done_before_cancel", "tail.hour_passed_with_pool_live",
 		"size.checked", "size.zero_after_cancel", "quiescent.checks", "quiescent.live", "racing.phases", "watcher.exited_at_end",
 	})
 	if mon.Only() < 0 {
 		rec.Note("exhaustive", true)
-		rec.Note("exhaustive_space", fmt.Sprintf("lockstep mode: all pools of 0..%d initial contexts (each live or pre-cancelled) x all operation sequences of length 0..%d over {cancel(h) of a not yet cancelled context, Add live, Add ended, Cancel, Size}, quiescent between operations; the hook, ext, exthook, burst, randhook and racing cases come on top", sp.seqN, sp.seqL))
+		rec.Note("exhaustive_space", fmt.Sprintf("lockstep mode: all pools of 0..%d initial contexts (each live or pre-cancelled) x all operation sequences of length 0..%d%s over {cancel(h) of a not yet cancelled context, Add live, Add ended, Cancel, Size}, quiescent between operations; the hook, ext, exthook, burst, randhook and racing cases come on top", sp.seqN, sp.seqL, also))
 	}
 	ps := plans()
+	only := os.Getenv("C20_MODES") // debugging aid: run only the listed modes
+	if only != "" {
+		rec.Note("exhaustive", false)
+		rec.Note("debug_modes_only", only)
+	}
 	for idx, pl := range ps {
-		if !mon.Mine(idx) {
+		if !mon.Mine(idx) || (only != "" && !strings.Contains(","+only+",", ","+pl.mode+",")) {
 			continue
 		}
 		runPlan(t, idx, pl)
